@@ -52,8 +52,8 @@ theorem zhs_scale_dist (times : List ℝ) (E em had psi dist n t0 : ℝ) :
   · rw [tab_map]
     apply tab_congr
     intro j _
-    rw [show (fun k => zhsAmp (E * (em + had)) dist (Rabs psi) (thetaC n) (fftfreq (2 * times.length) (gridDt times) k))
-        = (fun k => dist⁻¹ * zhsAmp (E * (em + had)) 1 (Rabs psi) (thetaC n) (fftfreq (2 * times.length) (gridDt times) k))
+    rw [show (fun k => zhsAmp (E * (em + had)) dist (Rabs psi) (thetaC n) (askFftfreq (2 * times.length) (gridDt times) k))
+        = (fun k => dist⁻¹ * zhsAmp (E * (em + had)) 1 (Rabs psi) (thetaC n) (askFftfreq (2 * times.length) (gridDt times) k))
         from funext (fun k => zhsAmp_dist _ _ _ _ _)]
     rw [ifftShiftedRe_scale]
     ring
@@ -81,8 +81,8 @@ theorem zhs_scale_energy (times : List ℝ) (lam E em had psi dist n t0 : ℝ) (
     · rw [tab_map]
       apply tab_congr
       intro j _
-      rw [show (fun k => zhsAmp (lam * E * (em + had)) dist (Rabs psi) (thetaC n) (fftfreq (2 * times.length) (gridDt times) k))
-          = (fun k => lam * zhsAmp (E * (em + had)) dist (Rabs psi) (thetaC n) (fftfreq (2 * times.length) (gridDt times) k))
+      rw [show (fun k => zhsAmp (lam * E * (em + had)) dist (Rabs psi) (thetaC n) (askFftfreq (2 * times.length) (gridDt times) k))
+          = (fun k => lam * zhsAmp (E * (em + had)) dist (Rabs psi) (thetaC n) (askFftfreq (2 * times.length) (gridDt times) k))
           from funext (fun k => by rw [mul_assoc, zhsAmp_energy])]
       rw [ifftShiftedRe_scale]
       ring
